@@ -36,7 +36,11 @@ var referenceFuncs = func() map[string]bool {
 	for _, l := range strings.Split(referenceFuncsTxt, "\n") {
 		l = strings.TrimSpace(l)
 		if l != "" && !strings.HasPrefix(l, "#") {
-			m[l] = true
+			parts := strings.SplitN(l, "\t", 2)
+			m[parts[0]] = true
+			if len(parts) == 2 {
+				referenceSigs[parts[0]] = parts[1]
+			}
 		}
 	}
 	return m
@@ -72,7 +76,7 @@ func dumpFuncs(pkgs []*packages.Package) []string {
 			for _, d := range f.Decls {
 				if fd, ok := d.(*ast.FuncDecl); ok {
 					if o, ok := pk.TypesInfo.Defs[fd.Name].(*types.Func); ok {
-						res = append(res, funcKey(o))
+						res = append(res, funcKey(o)+"\t"+sigString(o))
 					}
 				}
 			}
@@ -133,7 +137,7 @@ func (il *inliner) roundPkg(pk *packages.Package, current, out map[string][]byte
 				continue
 			}
 			o, ok := info.Defs[fd.Name].(*types.Func)
-			if !ok || referenceFuncs[funcKey(o)] || fd.Name.Name == "init" || fd.Name.Name == "main" {
+			if !ok || referenceFuncs[funcKey(o)] || fnAlias[funcKey(o)] != "" || fd.Name.Name == "init" || fd.Name.Name == "main" {
 				continue
 			}
 			if why := il.unsuitable(fd, o, info); why != "" {
